@@ -52,6 +52,8 @@ static uint64_t H(uint64_t h, const void *p, size_t n) { return v_hash64(p, n, h
 static uint64_t sc_deflate_stateless(arena_t *a, int v)
 {
 	struct isal_zstream *s = (struct isal_zstream *) (a->ctx + a->shift); uint64_t h = 1; int level = v & 3, wr = (v >> 2) % 5; const uint8_t *in = (v >> 4) & 1 ? IN_MIX : IN_TEXT; size_t n = 3000 + 977 * (v % 7);
+	if (v % 5 == 4) { /* a 0x00/0xFF run up to a few bytes before the end, at an address whose low bits differ from arena to arena: the bytes produced must not depend on where the input lies */
+		uint8_t *ib = a->aux2 + a->shift + ((a->shift / 64) & 7) + (((uintptr_t) a->aux2 >> 12) & 7); size_t n2 = 64 + (size_t) (v % 50) * 9; memset(ib, (v & 1) ? 0xff : 0, n2); int tl = (v / 5) % 8; for (int i = 0; i < tl; i++) ib[n2 - 1 - i] = (uint8_t) (0x31 + i); in = ib; n = n2; }
 	isal_deflate_stateless_init(s); s->level = level; s->level_buf = level ? a->lvl + a->shift : NULL; s->level_buf_size = level ? ISAL_DEF_LVL3_DEFAULT : 0; s->gzip_flag = wr; s->flush = NO_FLUSH; s->end_of_stream = 1;
 	s->next_in = (uint8_t *) in; s->avail_in = (uint32_t) n; s->next_out = a->out + a->shift; s->avail_out = OUTSZ - 256;
 	int rc = isal_deflate_stateless(s); h = H(h, &rc, 4); h = H(h, &s->total_out, 4); h = H(h, a->out + a->shift, s->total_out); h = H(h, &s->total_in, 4); return h;
